@@ -56,10 +56,12 @@ func verifNewStakingEnv(rate int) *verifStakingEnv {
 	return e
 }
 
+// verifShares: an arbitrary non-negative share amount with 18 fractional digits (delegations carry
+// fractional shares whenever the validator's exchange rate is not 1).
 func verifShares(name string) sdkmath.LegacyDec {
 	b := rt.BigInt(name)
-	rt.Assume(rt.And(b.Sign() >= 0, b.Cmp(new(big.Int).Lsh(big.NewInt(1), 90)) < 0))
-	return sdkmath.LegacyNewDecFromBigInt(b)
+	rt.Assume(rt.And(b.Sign() >= 0, b.Cmp(new(big.Int).Lsh(big.NewInt(1), 150)) < 0))
+	return sdkmath.LegacyNewDecFromBigIntWithPrec(b, 18)
 }
 
 // wrappers: the precompile's keeper interfaces are wide; only the methods the share-transfer code
